@@ -229,6 +229,9 @@ pub enum Op {
     AdapterPeerWrite(Id, u32),
     AdapterPeerRead(Id, u32),
     AdapterPeerClose(Id),
+    /// hand a held adapter to an inserted source, which drops it from inside its next
+    /// unregister (0) / reregister (1) / register (2) call
+    AdapterGiveTo(Id, Id, u8),
     /// the peer writes its last n bytes and closes without reading what was sent to it
     AdapterPeerLastWords(Id, u32),
     /// reuse one slot n times (insert a far-away timer, remove it) while checking that tokens
@@ -242,6 +245,9 @@ pub enum Op {
     /// like TrRemove / TrReplace, but the re-registration is left to a later operation on the
     /// parent (update, disable, remove ...)
     TrRemoveLazy(Id),
+    /// scripted failure inside the wrapper's own re-registration: 1 = the next replacement
+    /// child's register() fails, 2 = the current child's next unregister() fails
+    TrChildFail(Id, u8),
     TrReplaceLazy(Id, ChildSpec),
     /// EventLoop::block_on(future): the future returns Pending `pendings` times; each time it
     /// either wakes itself during the poll (yield pattern) or relies on an environment Wakeup /
@@ -364,11 +370,13 @@ impl Op {
             Op::AdapterPeerWrite(..) => "AdapterPeerWrite",
             Op::AdapterPeerRead(..) => "AdapterPeerRead",
             Op::AdapterPeerClose(_) => "AdapterPeerClose",
+            Op::AdapterGiveTo(..) => "AdapterGiveTo",
             Op::AdapterPeerLastWords(..) => "AdapterPeerLastWords",
             Op::SlotChurn(_) => "SlotChurn",
             Op::ScheduleTimeout { .. } => "ScheduleTimeout",
             Op::Run { .. } => "Run",
             Op::TrRemoveLazy(_) => "TrRemoveLazy",
+            Op::TrChildFail(..) => "TrChildFail",
             Op::TrReplaceLazy(..) => "TrReplaceLazy",
             Op::BlockOn { .. } => "BlockOn",
             Op::ManyPings { .. } => "ManyPings",
